@@ -37,6 +37,10 @@ def programs(tier):
         out.append(('kind:' + k, ul({'tag': 'li', 'indent': 2, 'repeat': ['x', py('seq')],
                                      'children': [I('x'), '|'] + probes('x')}),
                     [['seq', 'iter:' + k, 0]]))
+    out.append(('implicit-translate-option', ul('  ', {'tag': 'li', 'indent': 4, 'repeat': ['x', py('seq')], 'children': [I('x')]},
+                                                 {'tag': 'p', 'indent': 2, 'children': ['tail ', {'tag': 'b', 'indent': 6, 'repeat': ['y', py('seq')],
+                                                                                                 'children': ['w']}]}),
+                [['seq', 'iter:list', 0]], {'options': {'implicit_i18n_translate': True}}))
     out.append(('none', ul({'tag': 'li', 'indent': 2, 'repeat': ['x', py('seq')], 'children': [I('x')]}),
                 [['seq', 'lenN', 0]]))
     out.append(('unpack', ul({'tag': 'li', 'indent': 2, 'repeat': [['a', 'b'], py('seq')],
@@ -81,7 +85,7 @@ def programs(tier):
 
 def plan(tier, seed):
     quick = tier == 'quick'
-    jobs = [{'prog': p, 'vars': v, 'label': l} for l, p, v in programs(tier)]
+    jobs = [dict({'prog': item[1], 'vars': item[2], 'label': item[0]}, **(item[3] if len(item) > 3 else {})) for item in programs(tier)]
     famG = dict(name='repeat_rendering', module=HG, fn='H', jobs=jobs, timeout=300 if quick else 900, batch=2,
                 vacuity=1, program_key='prog',
                 mutants=[{'name': 'repeat_separator_ge', 'cfg': jobs[0]},
